@@ -493,7 +493,7 @@ class Monomial:
                     sqrt_factors.remove(tmp)
                     tmp = (-tmp[0], tmp[1])
                     sqrt_factors.insert(0, tmp)
-                    return Monomial(1, sqrt_factors, self.conds)
+                    return Monomial((-self.coeff) ** exp, sqrt_factors, self.conds)
             return Monomial(self.coeff ** exp, sqrt_factors, self.conds)
 
         else:
